@@ -706,22 +706,11 @@ func genCase(r *rand.Rand, allowHuge bool) *Case {
 	return c
 }
 
-// TRIAGE-PENDING: two shapes raise violations on the unchanged tree (reported to the lead, replay files and a proposed
-// repair under /tmp/alarms3/C15-*); they are kept out of the GENERATOR only - the oracle is unchanged, and a replay
-// of such a case is judged in full. Remove this function's two conditions once the library is repaired.
-//  1. a typed-nil pointer source (*string, *[]byte, *struct, *interface{}) makes ByteStreamProducer and TextProducer
-//     panic in reflect (sig produce-panic/<codec>/typed-nil-source);
-//  2. ByteStreamProducer refuses a nil writer before it arranges for a closable payload to be closed
-//     (sig source-payload-not-closed/bytestream/nil-writer).
-func triagePending(c *Case) bool {
-	if c.Dir != "produce" || (c.Codec != "bytestream" && c.Codec != "text") {
-		return false
-	}
-	if strings.HasPrefix(c.Kind, "nil-") && c.WK != "nil" {
-		return true
-	}
-	return c.Codec == "bytestream" && c.WK == "nil" && (c.Kind == "readcloser" || c.Kind == "dual")
-}
+// Two shapes raised violations on the unchanged tree and were repaired in the library by 8b3e578 (witnesses pinned in
+// known_findings.json): a typed-nil pointer source made ByteStreamProducer and TextProducer panic in reflect
+// (produce-panic/<codec>/typed-nil-source), and ByteStreamProducer refused a nil writer before it had arranged for a
+// closable payload to be closed (source-payload-not-closed/bytestream/nil-writer). Nothing is kept out of the generator.
+func triagePending(*Case) bool { return false }
 
 func run(m *mon.M) {
 	sweep := sweepCases(!m.Quick())
